@@ -712,9 +712,33 @@ func buildPreservationSet(files []parsedFile, cfg *Config) *preservationSet {
 			collectProtectedMacroTemplateSymbols(expr, files[i].analysis.RootScope, protected)
 			collectProtectedMacroletSymbols(expr, files[i].analysis.RootScope, protected)
 			collectProtectedDataTemplateSymbols(expr, files[i].analysis.RootScope, files[i].analysis.RootScope, protected)
+			for _, child := range expr.Cells {
+				preserveNestedDefinitionNames(files[i].analysis, child, protected)
+			}
 		}
 	}
 	return protected
+}
+
+// preserveNestedDefinitionNames keeps the names that defun, defmacro and
+// deftype forms define when they stand INSIDE another form - the body of a
+// top-level let, say.  Such a form binds the name in the package at run time,
+// but the analysis files it under the enclosing scope, where the top-level
+// references to it do not find it: renaming the definition alone would leave
+// them unbound.
+func preserveNestedDefinitionNames(result *analysis.Result, node *lisp.LVal, protected *preservationSet) {
+	if node == nil || node.Type != lisp.LSExpr || node.IsQuoted() {
+		return
+	}
+	switch astutil.HeadSymbol(node) {
+	case "defun", "defmacro", "deftype":
+		if len(node.Cells) > 1 && node.Cells[1].Type == lisp.LSymbol {
+			preserveNodeSymbol(result, node.Cells[1], protected)
+		}
+	}
+	for _, child := range node.Cells {
+		preserveNestedDefinitionNames(result, child, protected)
+	}
 }
 
 func preservePackageSurfaceSymbols(files []parsedFile, cfg *Config, protected *preservationSet) {
